@@ -9,9 +9,9 @@ ROLES = {
     "M": ["none", "read", "assign", "aug", "walrus", "for", "def", "class", "import", "comp", "fortuple", "whilewalrus", "forwalrus"],
     "F": ["none", "read", "assign", "aug", "walrus", "param", "for", "comp", "gassign", "gread", "gaug", "nassign", "nread", "naug", "def", "class", "import", "kwparam", "starparam", "paramassign", "paramaug", "whilewalrus", "forwalrus", "posparam"],
     "C": ["none", "read", "assign", "aug", "for", "gassign", "nassign", "readassign", "def", "import", "walrusless", "whilewalrus", "forwalrus", "condassign", "loopassign0"],
-    "L": ["none", "read", "param", "walrus", "default", "compwalrus"],
-    "G": ["none", "read", "target", "walrus", "readiter", "readcond"],
-    "E": ["none", "read", "target", "readiter"],
+    "L": ["none", "read", "param", "walrus", "default", "compwalrus", "compwalrus@while"],
+    "G": ["none", "read", "target", "walrus", "readiter", "readcond", "walrus@while", "walrus@for", "walrus@if", "read@while"],
+    "E": ["none", "read", "target", "readiter", "walrus@while"],
 }
 STMT_KINDS = ("M", "F", "C")
 
@@ -50,7 +50,7 @@ CHAIN_ROLES = {
     "F": ["none", "read", "assign", "param", "posparam", "gassign", "gread", "nassign", "nread", "naug"],
     "C": ["none", "read", "assign", "gassign", "readassign", "condassign"],
     "L": ["read", "walrus", "compwalrus"],
-    "G": ["read", "target"],
+    "G": ["read", "target", "walrus@while"],
     "E": ["read"],
 }
 
@@ -189,13 +189,27 @@ def gen(t, path, ind, out):
                 body = ["    " * (ind + 1) + "pass"]
             out.extend(body)
         else:
-            emit('log(%s+":val", %s)' % (repr(cp), expr(c, cp)))
+            call = 'log(%s+":val", %s)' % (repr(cp), expr(c, cp))
+            host = cr.split("@")[1] if "@" in cr else ""
+            if host == "while":  # the expression scope sits in the test of a while loop (evaluated once: log returns None)
+                emit("n%d_ = 0" % i)
+                emit("while n%d_ < 1 and %s is None:" % (i, call))
+                emit("    n%d_ += 1" % i)
+            elif host == "for":  # ... in the iterable of a for loop
+                emit("for q%d_ in [%s]:" % (i, call))
+                emit("    pass")
+            elif host == "if":  # ... in the test of an if statement
+                emit("if %s is None:" % call)
+                emit("    pass")
+            else:
+                emit(call)
     if role != "none":
         emit('log(%s+":post", show(x))' % V)
 
 
 def expr(t, path):
     kind, role, ch = t
+    role = role.split("@")[0]  # "@while"/"@for"/"@if": the statement position hosting the expression (see gen)
     V = repr(path)
     inner = ""
     if ch:
